@@ -533,6 +533,8 @@ class Evaluator:
         return res
 
     def member(self, a, b, ctx):
+        if isinstance(b.ty, TOpt) and isinstance(b.ty.inner, (TDict, TList, TSet)):
+            b = self.unwrap_opt(b, ctx)        # `x in None` raises TypeError
         if isinstance(b.ty, TRec) and b.ty.name in getattr(self.engine, 'unions', {}) and a.ty == STR:
             # `text in x` where x is a str | int | float union: TypeError unless x is a str
             ctx.exc('TypeError', b.ty.get('kind', b.t) != 0)
